@@ -151,6 +151,7 @@ class NamespaceFunction(Namespace[symtable.Function]):
             ):
                 # a function nested in a method which uses super or __class__:
                 # the __class__ cell belongs to the class, it is a plain name here
+                self.zero_arg_super_used = True
                 continue
 
             for outer in reversed(stack):
